@@ -47,6 +47,21 @@ CLAIMS = {
             'Three clauses. (i) Totality and repeated errors: TLC proves NoNullDeref and ErrorsRepeat on ZoneProc.tla with the argument classes {valid, below range, above range, sentinel}; every model transition is replayed in the ASan+UBSan build of Basic/Extended/managed time zones, answer class and processor state compared. (ii) No UB / out-of-bounds: every public value-type operation is swept over the int32 instants (strided + all boundaries), boundary component tuples, all int16 offsets, error values and truncated strings in a UBSan-recover build; each distinct UB site is a violation (13 signed-overflow sites are known findings, listed by call site); zone processors are swept under the sanitizers too. (iii) Buffers: TLC proves on TransitionPool.tla that the pool is safe while occupancy stays below capacity (and refutes unconditional safety); for every zonedbx zone x year 1999..2050 the real high-water mark must stay below the recorded size and 8, and the H2 event sequence of each init() is validated against the pool protocol by TLC; hook H1 shows the basic processor never needs a sixth slot.',
             'UB/OOB is decided by the sanitizers on the executions generated, not by TLC. Known findings: 13 signed-overflow call sites in LocalDate/LocalDateTime/OffsetDateTime conversions.',
             '§4.4, §4.5, §6-C09, §8'),
+    'C06': ('model_checking',
+            'TLA+ definition of the proleptic Gregorian calendar (Calendar.tla) with the day count proved by a locally checked induction in TLC over all 93,136 days; the library formulas transcribed and checked against it; TLC\'s complete day table compared with the real LocalDate on every day; native sweeps of all instants / byte triples',
+            'TLC (MC_Calendar) checks for every day of 1873..2127 the induction step in both directions (Civil(d+1) = NextDay(Civil(d)), anchored at 2000-01-01 = Saturday), and that toEpochDays (JDN formula, truncating division), extractYearMonthDay, the dayOfWeek table formula and increment/decrementOneDay, transcribed, equal the definition; it dumps the table day -> (y, m, d, dow, leap, days-in-month). The real LocalDate::forEpochDays/toEpochDays/dayOfWeek/isLeapYear/daysInMonth/incrementOneDay/decrementOneDay are compared with that table for every day; LocalDateTime/LocalDate::forEpochSeconds fields, validity and round trip are swept over the int32 instants (quick: stride 16 plus every day boundary +-2 s; thorough: all 2^32-1) as day-table x second-of-day; all 2^24 (h,m,s) triples are compared with the validity predicate whose class table TLC supplies.',
+            'The harness-side calendar used for the instant sweep is itself compared with the TLC table on every day. isError for dates is the documented component-range contract.',
+            '§4.1, §6-C06'),
+    'C16': ('model_checking',
+            'TLA+ value model of TimeZone kinds, save/restore and equality (TimeZoneValue.tla) with theorems checked by TLC; cases recorded from the real TimeZone/ZoneManager judged by TLC against Save/Restore/Equal',
+            'TLC checks RoundTrip and EqualityIsDenotation over all kinds x zones x offsets x registries, and the numeric coincidence TimeZoneData::kTypeZoneId = TimeZone::kTypeBasic that createForTimeZoneData relies on. Every zone of both registries (manager-created and direct, full and partial registries), manual offsets on a 15-minute grid x DST values plus int16 boundaries, error/UTC zones and all pairs of a 24-value pool are run through the real classes (ASan/UBSan build); TLC judges each recorded case (saved data, restored kind/zone/offsets, equality with the manager\'s own zone, manual offset sum, operator==) against the specification; restored zones must answer identically.',
+            'Zone ids are replaced by registry positions in recorded cases (TLC integers are 32-bit); the driver checks id equality itself.',
+            '§4.9, §6-C16'),
+    'C18': ('model_checking',
+            'TLA+ declarative resolution of ON expressions on the day count plus transcriptions of the C++ and Python algorithms (Calendar.tla, MC_RuleDay) checked by TLC over the whole argument space; the real calcStartDayOfMonth, calc_day_of_month, _parse_on_day_string and rejection filter compared with TLC\'s table / each other on every case',
+            'TLC checks for 1873..2126 x 12 x 7 x every day-of-month expression (1.32M cases; quick: every third year) that the declarative resolution is the calendar\'s answer, that admitted expressions never leave the year and C++ = Python = definition on them, and that every expression that can leave the year is rejected. The real C++ function is run on the whole admitted space and must equal TLC\'s dumped table (every 11th year) and the real Python function on every row; the real ON-string parser is run on the whole grammar and malformed neighbours; the real transformer filter is run on all 5,208 (month, weekday, bound) expressions and must coincide with the specification\'s Admitted.',
+            'Day-of-month bounds beyond the month length (e.g. Sun>=31 in February) are outside the modelled space.',
+            '§4.2, §6-C18'),
 }
 
 PLANNED = {
